@@ -91,7 +91,7 @@ CHECK = {
     "oracle_ok": oracle_ok,
     "exhaustive": {"quick": False, "thorough": False},
     "timeout": {"quick": 300, "thorough": 3000},
-    "rule": ("seeded random zones (<=40 adds over labels {a,b,c,*,A}, apexes ., c., b.c., A.b.; NS at several depths, "
+    "rule": ("seeded random zones (<=40 adds over labels {a,b,c,*,A}, [30% of the zones add labels that differ from those only in bit 5: LF, _, DEL, @, `, [, {; 15% labels that only begin with an asterisk; + 8 queries per zone that flip bit 5 of one octet of an owner] apexes ., c., b.c., A.b.; NS at several depths, "
              "wildcards, CNAMEs, empty non-terminals, TTL/class/out-of-zone rejects, case variants of owners; name-bearing "
              "RDATA of NS/CNAME/PTR/MB/MG/MR/MD/MF/MX/SOA/MINFO/SRV and CH-class A in bursts of 1..3 records of one RRset that "
              "differ only in the letter case of the embedded names, in a fixed field, or by a malformation (junk octet, missing "
